@@ -138,7 +138,14 @@ fn run(args: &[String]) -> ! {
     if (prop.both_profiles)(tier) {
         let bin = std::env::var("CKC_MC_RELCHK_BIN").unwrap_or_else(|_| monitor::machinery_fail("CKC_MC_RELCHK_BIN not set but this tier runs in both build profiles"));
         let out = std::env::temp_dir().join(format!("ckc-mc-child-{}-{}.json", id, std::process::id()));
-        let status = std::process::Command::new(&bin).args(["run", &id, tier.name(), "--child", out.to_str().unwrap()]).status();
+        // quick tier of the heavy ranking properties: the overflow-checked child explores the lean selection of spaces
+        let lean_child = !tier.thorough() && prop.dbg_lean && id != "C05" && id != "C11";
+        let mut cmd = std::process::Command::new(&bin);
+        cmd.args(["run", &id, tier.name(), "--child", out.to_str().unwrap()]);
+        if lean_child {
+            cmd.arg("--lean");
+        }
+        let status = cmd.status();
         match status {
             Ok(s) if s.success() => {
                 let text = std::fs::read_to_string(&out).unwrap_or_else(|_| monitor::machinery_fail("child report missing"));
